@@ -225,6 +225,11 @@ func (i *Interp) poolPut(p *value, x value) {
 		return
 	}
 	bagc, _ := poolFields(p)
+	// the scheduling point comes before the operation (as for every other visible operation): another thread may
+	// run while this one still holds the object it is about to give back
+	if i.threads != nil {
+		i.threads.syncPoint(i, "pool.Put")
+	}
 	bag, _ := (*bagc).([]value)
 	nb := make([]value, 0, len(bag)+1)
 	nb = append(nb, bag...)
@@ -235,9 +240,6 @@ func (i *Interp) poolPut(p *value, x value) {
 	}
 	nb = append(nb, e)
 	i.rawWrite(bagc, nb)
-	if i.threads != nil {
-		i.threads.syncPoint(i, "pool.Put")
-	}
 }
 
 // atomic.Pointer[T]: struct{ _ [0]*T; _ noCopy; v unsafe.Pointer }
